@@ -1271,18 +1271,29 @@ func (s *Entry) printFirstLineOfMsg(pc *PrintCtx) {
 	if minimalMessageWidth > 0 {
 		str := ct.rightPad(firstLine, " ", minimalMessageWidth)
 		if strings.ContainsAny(str, "<&") { // only markup needs the translator, which also eats leading blanks
-			str = ct.translate(str)
+			str = translateLine(str)
 		}
 		_, _ = pc.WriteString(ct.wrapColorAndBg(str, pc.clr, pc.bg))
 	} else {
 		str := firstLine
 		if strings.ContainsAny(str, "<&") {
-			str = ct.translate(str)
+			str = translateLine(str)
 		}
 		_, _ = pc.WriteString(ct.wrapColorAndBg(str, pc.clr, pc.bg))
 	}
 	// pc.pcAppendByte(' ')
 	// pc.pcAppendByte('|')
+}
+
+// translateLine applies the markup translator to a single line. The HTML
+// tokenizer underneath normalizes CR to LF; a line has no LF of its own, so
+// put the CRs back instead of breaking the line while a colour is on.
+func translateLine(line string) string {
+	str := ct.translate(line)
+	if strings.IndexByte(str, '\n') >= 0 {
+		str = strings.ReplaceAll(str, "\n", "\r")
+	}
+	return str
 }
 
 func (s *Entry) printRestLinesOfMsg(pc *PrintCtx) {
